@@ -26,9 +26,9 @@ CONFIG = dict(
         "the nokeyiserr wrapper is not part of the property and is excluded",
     ],
     units=[
-        dict(test="TestC23Memory", quick=2000, thorough=160000, shards=16, steps=40),
-        dict(test="TestC23LevelDB", quick=1000, thorough=80000, shards=16, steps=40),
-        dict(test="TestC23Pebble", quick=1000, thorough=80000, shards=16, steps=40),
+        dict(test="TestC23Memory", quick=6000, thorough=160000, shards=16, steps=40),
+        dict(test="TestC23LevelDB", quick=3000, thorough=80000, shards=16, steps=40),
+        dict(test="TestC23Pebble", quick=3000, thorough=80000, shards=16, steps=40),
         dict(test="FuzzC23", kind="fuzz", fuzztime="60s", tiers=["thorough"]),
     ],
 )
